@@ -88,11 +88,15 @@ Lemma C10_source_shape :
   sendrecv_keeps_withdrawn = true /\ handleone_checks_found = true.
 Proof. repeat split. Qed.
 
+(** [mark] := recv_error_marks_dead: whether the receiver remembers a connection error (false in the tree as it is;
+    true with fixes/C10-recv-error-not-remembered.patch).  Every theorem below holds for both values. *)
+Definition mark : bool := recv_error_marks_dead.
+
 Definition reachable (n : nat) (m : mst) : Prop :=
-  reach sendrecv_withdraws sendrecv_keeps_withdrawn handleone_checks_found n m.
+  reach sendrecv_withdraws sendrecv_keeps_withdrawn handleone_checks_found mark n m.
 
 Lemma reachable_inv n m : reachable n m -> Inv m.
-Proof. exact (reach_inv n m). Qed.
+Proof. exact (reach_inv mark n m). Qed.
 
 (** the invariant, in every reachable state: running calls hold pairwise distinct tags and response
     slots; every pending slot is owned by exactly one running call and its done channel is empty, so
@@ -111,7 +115,7 @@ Print Assumptions C10_never_blocked.
 
 (** a reply that arrives while its call withdraws is dropped; the receiver goes on, the call returns an error *)
 Theorem C10_send_race_harmless :
-  exists m, run true true true (init 2) trace_race = Some m /\ get (thr m) 1 = TWait 2 1 /\
+  exists m, run true true true false (init 2) trace_race = Some m /\ get (thr m) 1 = TWait 2 1 /\
             get (thr m) 0 = TDone 1 0 RFail /\ token m = false.
 Proof. exact race_dropped. Qed.
 
@@ -143,40 +147,56 @@ Qed.
 
 (** fail-all *)
 Theorem C10_fail_all : forall n m a m', reachable n m -> fatal_action m a ->
-  step true true true m a = Some m' ->
+  step true true true mark m a = Some m' ->
   pend m' = [] /\ forall t0 s0, In (t0, s0) (pend m) -> full m' s0 = Some RFail.
-Proof. exact fail_all. Qed.
+Proof. exact (fail_all mark). Qed.
 Print Assumptions C10_fail_all.
 
 (** no-stuck *)
 Theorem C10_no_stuck : forall n m i t s, reachable n m -> get (thr m) i = TWait t s ->
-  (exists r, full m s = Some r /\ routed i t s r /\ step true true true m (AWaitDone i) <> None) \/
+  (exists r, full m s = Some r /\ routed i t s r /\ step true true true mark m (AWaitDone i) <> None) \/
   (In (t, s) (pend m) /\ full m s = None /\
-   ((token m = false /\ step true true true m (AWaitToken i) <> None) \/
+   ((token m = false /\ step true true true mark m (AWaitToken i) <> None) \/
     (token m = true /\ exists j, j <> i /\ holder (get (thr m) j)))).
-Proof. exact no_stuck. Qed.
+Proof. exact (no_stuck mark). Qed.
 Print Assumptions C10_no_stuck.
 
 (** later calls fail: once the connection is dead (every send and every receive fails from then on —
     [dead_forever]), a call that had not started can only return an error, whatever happens next *)
 Theorem C10_later_fail : forall n m i, reachable n m -> dead m = true -> get (thr m) i = TIdle ->
-  forall tr m' t s r, run true true true m tr = Some m' -> get (thr m') i = TDone t s r -> r = RFail.
-Proof. exact later_fail. Qed.
+  forall tr m' t s r, run true true true mark m tr = Some m' -> get (thr m') i = TDone t s r -> r = RFail.
+Proof. exact (later_fail mark). Qed.
 Print Assumptions C10_later_fail.
+
+(** a connection error reported by recv itself (bad header, over-long frame, read error): if the receiver remembers
+    it, every call that has not started fails, whatever the peer and the transport do afterwards ... *)
+Theorem C10_later_fail_after_recv_error : forall n m j m1 i,
+  reach true true true true n m -> step true true true true m (ARecvErr j) = Some m1 -> get (thr m1) i = TIdle ->
+  forall tr m' t s r, run true true true true m1 tr = Some m' -> get (thr m') i = TDone t s r -> r = RFail.
+Proof. exact later_fail_after_recv_error. Qed.
+Print Assumptions C10_later_fail_after_recv_error.
+
+(** ... the tree as it is forgets it: a later call is sent and waits in recv on a connection the client has declared
+    broken (reproduced on the real code: it hangs; fixes/C10-recv-error-not-remembered.md).  C10_later_fail above
+    therefore covers, for the current tree, only a transport that keeps failing by itself. *)
+Theorem C10_recv_error_forgotten_refuted :
+  exists m, run true true true false (init 2) trace_forgotten = Some m /\
+            get (thr m) 0 = TDone 1 0 RFail /\ get (thr m) 1 = TRecv 1 0 /\ dead m = false.
+Proof. exact recv_error_forgotten. Qed.
 
 (** each fix is needed: without the withdrawal the broadcaster blocks for good on a recycled slot; without
     the re-check in handleOne a nil *response is dereferenced; with the re-check but a recycled slot a new
     call is completed with a reply decoded into another call's message *)
 Theorem C10_stale_entry_refuted :
-  exists m, run false false true (init 2) trace_stale = Some m /\ get (thr m) 1 = TBlocked.
+  exists m, run false false true false (init 2) trace_stale = Some m /\ get (thr m) 1 = TBlocked.
 Proof. exact stale_blocks. Qed.
 
 Theorem C10_unchecked_completion_refuted :
-  exists m, run true false false (init 2) trace_race = Some m /\ get (thr m) 1 = TPanic.
+  exists m, run true false false false (init 2) trace_race = Some m /\ get (thr m) 1 = TPanic.
 Proof. exact race_panics. Qed.
 
 Theorem C10_recycled_slot_refuted :
-  exists m, run true false true (init 3) trace_aba = Some m /\ get (thr m) 2 = TDone 1 0 (ROk 1 0 0).
+  exists m, run true false true false (init 3) trace_aba = Some m /\ get (thr m) 2 = TDone 1 0 (ROk 1 0 0).
 Proof. exact aba_foreign. Qed.
 Print Assumptions C10_recycled_slot_refuted.
 
